@@ -26,13 +26,15 @@ template <> struct MkView<1> {
     template <class X> static auto mk(X &t, const seq *q, const int *, int) { return t(q[0]); }
 };
 template <> struct MkView<2> {
-    enum { NFORMS = 5 };
+    enum { NFORMS = 7 };
     template <class X> static auto mk(X &t, const seq *q, const int *fixi, int form) {
         switch (form) {
         case 1: return t(fixi[0], q[1]);
         case 2: return t(q[0], fixi[1]);
         case 3: return t(all, q[1]);
         case 4: return t(q[0], all);
+        case 5: return t(fixi[0], all);
+        case 6: return t(all, fixi[1]);
         default: return t(q[0], q[1]);
         }
     }
@@ -60,8 +62,14 @@ template <> struct MkView<4> {
     }
 };
 // which axis a form pins to an integer (-1 none) / to `all` (-1 none)
-inline int form_int_axis(int R, int form) { if (R < 2) return -1; if (form == 1) return 0; if (form == 2 && R < 4) return R - 1; return -1; }
-inline int form_all_axis(int R, int form) { if (R < 2) return -1; if (R == 4) return form == 2 ? 3 : -1; if (form == 3) return 0; if (form == 4) return R - 1; return -1; }
+inline int form_int_axis(int R, int form) { if (R < 2) return -1; if (form == 1) return 0; if (form == 2 && R < 4) return R - 1; if (R == 2 && form == 5) return 0; if (R == 2 && form == 6) return 1; return -1; }
+inline int form_all_axis(int R, int form) { if (R < 2) return -1; if (R == 4) return form == 2 ? 3 : -1; if (form == 3) return 0; if (form == 4) return R - 1; if (R == 2 && form == 5) return 1; if (R == 2 && form == 6) return 0; return -1; }
+
+// full-range right-hand side that requires evaluation (square rank-2 parents): B % C
+template <class Ten> struct FullEval { enum { available = 0 }; template <class A> static void go(int, A &, const Ten &, const Ten &) {} static Ten ref(const Ten &b, const Ten &) { return b; } };
+template <class T, size_t N> struct FullEval<Tensor<T, N, N>> { enum { available = 1 };
+    template <class A> static void go(int op, A &a, const Tensor<T, N, N> &b, const Tensor<T, N, N> &c) { do_assign(op, a(all, all), b % c); }
+    static Tensor<T, N, N> ref(const Tensor<T, N, N> &b, const Tensor<T, N, N> &c) { Tensor<T, N, N> r = b % c; return r; } };
 
 template <class T, size_t... D> struct Uni : UniverseBase {
     using Ten = Tensor<T, D...>;
@@ -220,12 +228,14 @@ template <class T, size_t... D> struct Uni : UniverseBase {
 
     // ---------------------------------------------------------------- K_DYN_WRITE (C05)
     void dyn_write(const Step &st, StepCtx &cx) {
-        int op = (int)(st.a[A_OP] % 5); uint32_t rk = st.a[A_RHS] % 6; int form = (int)(st.a[A_FORM] % MkView<R>::NFORMS);
+        int op = (int)(st.a[A_OP] % 5); uint32_t rk = st.a[A_RHS] % 7; int form = (int)(st.a[A_FORM] % MkView<R>::NFORMS);
+        if (rk == 6 && (!FullEval<Ten>::available || op == 4)) rk = 4;
         normalise(cx.si, op, false);
         Sel<R> d; decode_sel(st, A_D0, 9, d);
         if (rk >= 4) { form = 0; for (int k = 0; k < R; ++k) { d.f[k] = 0; d.s[k] = 1; d.ext[k] = dims[k]; d.l[k] = dims[k]; } }   // whole-tensor right-hand sides need the full range
         if (form != 0 && rk > 1) rk = rk % 2;
         if (op == 4 && (rk == 2 || rk == 3 || rk == 5)) rk = rk == 5 ? 4 : 1;            // divisors must stay powers of two
+        Ten evref; if (rk == 6) evref = FullEval<Ten>::ref(*B, *C);                     // values of B % C from the library's own evaluation
         seq q[4] = {seq(0, 1), seq(0, 1), seq(0, 1), seq(0, 1)}; int fixi[4] = {0, 0, 0, 0};
         build_args(d, form, st.a[A_X], q, fixi);
         Sel<R> s1, s2; decode_src(st, A_S0, d, s1, 1); decode_src(st, A_S0, d, s2, 2);
@@ -242,6 +252,7 @@ template <class T, size_t... D> struct Uni : UniverseBase {
             case 2: r = (T)(sB[s1.at(dims, qi)] * (T)2 + sC[s2.at(dims, qi)]); break;
             case 3: r = (T)(sB[s1.at(dims, qi)] - sC[s2.at(dims, qi)]); break;
             case 4: r = sB[di]; break;
+            case 6: r = evref.data()[di]; break;
             default: r = (T)(sB[di] + sC[di] * (T)2); break;
             }
             expA[di] = apply_op<T>(op, sA[di], r); if (memcmp(&expA[di], &sA[di], sizeof(T))) changed = true;
@@ -254,6 +265,7 @@ template <class T, size_t... D> struct Uni : UniverseBase {
             case 2: do_assign(op, MkView<R>::mk(a, q, fixi, 0), MkView<R>::mk(b, q1, fixi, 0) * (T)2 + MkView<R>::mk(c, q2, fixi, 0)); break;
             case 3: do_assign(op, MkView<R>::mk(a, q, fixi, 0), MkView<R>::mk(b, q1, fixi, 0) - MkView<R>::mk(c, q2, fixi, 0)); break;
             case 4: do_assign(op, MkView<R>::mk(a, q, fixi, 0), b); break;
+            case 6: FullEval<Ten>::go(op, a, b, c); break;
             default: do_assign(op, MkView<R>::mk(a, q, fixi, 0), b + c * (T)2); break;
             }
         }, failalloc);
